@@ -10,6 +10,14 @@ BASE = ("cd /repo && env -u TRACKLIB_VERIF_TRACE /venv/bin/python -m pytest -ra 
 
 # pid -> (module(s), technique, level text, level note, design ref)
 CHECKS = {
+    "C17": ("Kinematics", "TLA+ definitions of curvilinear abscissa (cumulated integer leg lengths) and squared speed (chord^2 / dt^2, "
+            "NaN iff dt = 0) + transcription of ds / Integrator / speed(), checked by TLC on every small walk; columns recorded "
+            "from computeAbsCurv and estimate_speed (computed twice) judged by KinematicsTrace.tla (code->spec)",
+            "every walk of 1..3 (thorough 4) legs over {zero, unit, 3-4-5, 1000-long} x time gaps {0,1,2} and random tracks to 12 "
+            "fixes: abs_curv starts at 0, grows by exactly each leg, ends at the length; speed is the centred / one-sided "
+            "difference, NaN exactly on zero duration; repeated computation returns the same columns; positions and timestamps "
+            "unchanged.",
+            "TLC 1.8; integer-length legs and integer times; speeds compared through squares", "5/C17"),
     "C15": ("KernelFilter", "TLA+ definition of the renormalised weighted mean with NaN skipping and boundary copy + transcription "
             "of Filter.execute's temp/norm loop, checked by TLC together with the constant-signal and hull consequences; outputs "
             "recorded from Operator.FILTER / filter_seq / Track.smooth and windows from Kernel.toSlidingWindow judged by "
